@@ -6,6 +6,14 @@ Correspondence: DataSet.parse and DataSet(datafile=…) on all 139 bundled files
 generated well-formed and malformed files versus Model/DataFile.lean + Scalar/GridPt (Float).
 Numbers: the model returns exact decimals; the harness rounds them correctly (Fraction → float) and
 compares bit-for-bit with what gepard loaded.
+
+Ground truth (independent of the Lean model): for a generated file the generator's own data (which
+literal it wrote into which column, which value it gave globally, which key names which column); for a
+bundled file an independent reference reader of the same text (reference_desc / reference_rows /
+reference_layout).  The real code is compared with the ground truth first: a disagreement there is a
+violation with the file as the failing input, whatever the model says.  A disagreement between the code
+and the model alone (code = ground truth) is a fault of the model: no failing input.  When the model
+driver cannot be run, everything that rests on the ground truth still runs.
 """
 import math
 import re
@@ -15,6 +23,23 @@ import common
 from common import f2hex, hex2f
 
 NUMRE = re.compile(r'[-+]?(?:\d+\.?\d*|\.\d+)(?:[eE][-+]?\d+)?$')
+INTRE = re.compile(r'[-+]?\d+$')
+COLRE = re.compile(r'column([1-9]\d*)$')
+# lepton charge that follows from the declared beam (datasets: e, e-, em = electron; e+, ep = positron)
+CHARGE = {'e+': 1, 'ep': 1, 'e': -1, 'e-': -1, 'em': -1}
+# layout field -> preamble key
+ECOLS = (('etotal', 'y1error'), ('estat', 'y1errorstatistic'), ('estatP', 'y1errorstatisticplus'),
+         ('estatM', 'y1errorstatisticminus'), ('esyst', 'y1errorsystematic'),
+         ('esystP', 'y1errorsystematicplus'), ('esystM', 'y1errorsystematicminus'))
+EFIELD = dict((k, f) for f, k in ECOLS)
+ERRFIELDS = ('err', 'errplus', 'errminus', 'errstat', 'errsyst', 'errnorm')
+DEG_UNITS = ('deg', 'degree', 'degrees')
+RAD_UNITS = ('rad',)
+NB_UNITS = ('nb/GeV^4', 'nb', '1', 'nb/GeV^2', 'nbarn/GeV^4')     # y units the loader keeps as they are
+# combined errors, Python oracle: the code squares, adds at most six non-negative variances and takes a root: each term carries
+# <= 3 roundings, the sum <= 5 more, the root halves that and adds one: < 6 ulp; the oracle itself < 2 ulp.  8 ulp = 9e-16
+ORACLE_TOL = 1e-15
+PB_UNIT = 'pb/GeV^4'                                               # the one it converts to nb (value / 1000)
 
 
 def hx(s):
@@ -35,6 +60,31 @@ def dec2float(tok):
 def canon_float(x):
     x = float(x)
     return 0.0 if x == 0 else x
+
+
+def same_num(got, exp):
+    """bit-for-bit equality of two numbers (-0.0 canonicalised to 0.0)"""
+    if exp is None or isinstance(got, bool) or not isinstance(got, (int, float)):
+        return False
+    try:
+        return f2hex(canon_float(got)) == f2hex(canon_float(exp))
+    except (OverflowError, ValueError):
+        return False
+
+
+def differs(a, b, tol):
+    """a, b: float or None; True when they differ by more than tol (relative)"""
+    if (a is None) != (b is None):
+        return True
+    if a is None:
+        return False
+    if isinstance(a, bool) or not isinstance(a, (int, float)):
+        return True
+    if a == b:
+        return False
+    if not (math.isfinite(a) and math.isfinite(b)):
+        return True
+    return abs(a - b) > tol * max(abs(a), abs(b))
 
 
 def parse_model_parse(out):
@@ -113,8 +163,27 @@ def lit(rng, x=None, kind=None):
     return sign + '.' + str(rng.randint(0, 99999))
 
 
+def rad_lit(rng):
+    """an azimuthal angle written in radians (any legal notation)"""
+    k = rng.random()
+    sign = rng.choice(['', '', '', '-', '+'])
+    if k < 0.55:
+        return sign + '%d.%s' % (rng.randint(0, 6), ''.join(rng.choice('0123456789') for _ in range(rng.randint(1, 16))))
+    if k < 0.7:
+        return sign + '%d.%se%s' % (rng.randint(1, 9), ''.join(rng.choice('0123456789') for _ in range(rng.randint(0, 8))),
+                                   rng.choice(['+00', '-01', '-1', '0', '-02']))
+    if k < 0.8:
+        return sign + str(rng.randint(0, 6))
+    if k < 0.9:
+        return sign + '.' + str(rng.randint(0, 99999))
+    return sign + str(rng.randint(0, 6)) + '.'
+
+
 def gen_file(rng, rep):
-    """returns (text, meta).  Well-formed per datasets/README + docs/source/data.rst."""
+    """returns (text, meta, truth).  Well-formed per datasets/README + docs/source/data.rst.
+    truth = what the generator wrote where: pre (key, value pairs in file order), grid_text (the literal of
+    every cell), roles (what each column is), globals_ (kinematics given once in the preamble), layout (same
+    shape as parse_model_layout gives, built from the generator's own variables), units and frame."""
     nl = rng.choice(['\n', '\n', '\r\n'])
     sep = lambda: rng.choice([' ', '  ', '\t', ' \t', '   ', '\t\t'])
     process = rng.choice(['ep2epgamma', 'ep2epgamma', 'en2engamma', 'gammastarp2gammap', 'dis', 'gammastarp2rho0p'])
@@ -126,12 +195,13 @@ def gen_file(rng, rep):
         axes_pool[axes_pool.index('t')] = 'tm'
     rng.shuffle(axes_pool)
     errlayout = rng.choice(['total', 'stat', 'stat+syst', 'stat+systpm', 'statpm+syst', 'all', 'stat+norm'])
-    cols = []           # column roles in file order
     # ids collide on purpose (files loaded one after another in one session must not influence each other)
+    frame = rng.choice(['Trento', 'BMK'])
+    in1particle = rng.choice(['e', 'e-', 'e+', 'ep', 'em'])
     pre = [('id', str(rng.choice([2001, 2002, 2003]) if rng.random() < 0.4 else rng.randint(2000, 9999))), ('editor', 'verif'), ('collaboration', 'MOCK'),
            ('process', process), ('year', str(rng.randint(1990, 2030))),
-           ('frame', rng.choice(['Trento', 'BMK'])),
-           ('in1particle', rng.choice(['e', 'e-', 'e+', 'ep', 'em'])), ('in2particle', 'p')]
+           ('frame', frame),
+           ('in1particle', in1particle), ('in2particle', 'p')]
     if process in ('ep2epgamma', 'en2engamma'):
         et = rng.choice(['fixed target', 'collider'])
         pre.append(('exptype', et))
@@ -141,13 +211,16 @@ def gen_file(rng, rep):
         if rng.random() < 0.4:
             pre.append(('in1polarization', rng.choice(['+1', '-1', '1', '0.8'])))
     obs = rng.choice(['XUU', 'ALU', 'AC', 'XLU', 'X', 'DISF2'])
+    yunit = rng.choice(['nb/GeV^4', 'pb/GeV^4', '1', 'nb'])
     pre.append(('y1name', obs))
-    pre.append(('y1unit', rng.choice(['nb/GeV^4', 'pb/GeV^4', '1', 'nb'])))
+    pre.append(('y1unit', yunit))
     roles = []
     globals_ = {}
+    # the unit of an angle is stated as deg or rad (data.rst); bundled files also spell it 'degree'
+    phiunit = rng.choice(['deg', 'deg', 'deg', 'rad', 'rad', 'rad', 'degree', 'degrees'])
     for i, a in enumerate(axes_pool, 1):
         pre.append(('x%dname' % i, a))
-        pre.append(('x%dunit' % i, 'deg' if a == 'phi' else ('1' if a in ('xB', 'FTn') else 'GeV^2')))
+        pre.append(('x%dunit' % i, phiunit if a == 'phi' else ('1' if a in ('xB', 'FTn') else 'GeV^2')))
         if rng.random() < 0.3 and a not in ('phi',):
             v = {'xB': '0.%d' % rng.randint(1, 9), 'Q2': '%d.%d' % (rng.randint(1, 9), rng.randint(0, 9)),
                  't': '-0.%d' % rng.randint(1, 9), 'tm': '0.%d' % rng.randint(1, 9),
@@ -171,15 +244,25 @@ def gen_file(rng, rep):
     if rng.random() < 0.3:
         roles.append(('junk', 'extra', None))      # a column nobody references
     rng.shuffle(roles)
+    # ground-truth layout, from the generator's own variables (0-based column indices)
+    lay = dict(observable=obs, in1charge=CHARGE[in1particle], ycol=None, enorm=None,
+               axes=[(a, 'G', int(v) if a == 'FTn' else float(v)) for a, v in globals_.items()])
+    for f, _ in ECOLS:
+        lay[f] = None
     for ci, (kind, name, i) in enumerate(roles, 1):
         if kind == 'x':
             pre.append(('x%dvalue' % i, 'column%d' % ci))
+            lay['axes'].append((name, 'C', ci - 1))
         elif kind == 'y':
             pre.append(('y1value', 'column%d' % ci))
+            lay['ycol'] = ci - 1
         elif kind == 'e':
             pre.append((name, 'column%d' % ci))
+            lay[EFIELD[name]] = ci - 1
     if errlayout == 'stat+norm':
-        pre.append(('y1errornormalization', rng.choice(['0.03', '0.1', '.05'])))
+        nv = rng.choice(['0.03', '0.1', '.05'])
+        pre.append(('y1errornormalization', nv))
+        lay['enorm'] = float(nv)
     rng.shuffle(pre)
     lines = []
     for k, v in pre:
@@ -213,6 +296,8 @@ def gen_file(rng, rep):
                     t = lit(rng, kind=rng.choice(['dec', 'exp', 'lead'])).lstrip('-')
                 elif name == 'FTn':
                     t = str(rng.randint(-3, 3))
+                elif phiunit in RAD_UNITS:
+                    t = rad_lit(rng)
                 else:
                     t = lit(rng, kind=rng.choice(['dec', 'int', 'plus']))
             elif kind == 'e':
@@ -232,8 +317,11 @@ def gen_file(rng, rep):
             lines.append('# comment between rows')
     text = nl.join(lines) + rng.choice([nl, ''])
     meta = dict(process=process, errlayout=errlayout, nl=repr(nl), ncols=len(roles), nrows=nrows,
-                globals=sorted(globals_), roles=[r[1] for r in roles])
-    return text, meta, grid_text, roles, globals_
+                globals=sorted(globals_), roles=[r[1] for r in roles],
+                phiunit=phiunit if 'phi' in axes_pool else None)
+    truth = dict(pre=list(pre), grid_text=grid_text, roles=list(roles), globals_=dict(globals_), layout=lay,
+                 nrows=nrows, phiunit=phiunit if 'phi' in axes_pool else None, frame=frame, yunit=yunit)
+    return text, meta, truth
 
 
 def mutate(rng, text):
@@ -258,6 +346,8 @@ def mutate(rng, text):
 
 
 # ---------------------------------------------------------------------------------------------
+# independent reference reader of a data file (the "literal meaning" of datasets/README, data.rst)
+# ---------------------------------------------------------------------------------------------
 
 def reference_rows(text):
     """independent reference reader: a row is a line (comment removed) whose blank-separated
@@ -271,192 +361,666 @@ def reference_rows(text):
     return rows
 
 
+def reference_desc(text):
+    """preamble: 'key = value' lines (comment removed); a repeated key keeps its place, the last value wins"""
+    d = {}
+    for line in text.splitlines():
+        line = line.split('#')[0]
+        if '=' in line:
+            p = line.split('=')
+            d[p[0].strip()] = p[1].strip()
+    return list(d.items())
+
+
+def ascii_outside_comments(text):
+    return all(ord(c) < 128 for line in text.splitlines() for c in line.split('#')[0])
+
+
+def ref_number(v):
+    """a number given in the preamble: int when written without '.', float otherwise; None = not a plain number"""
+    if INTRE.match(v):
+        return int(v)
+    if NUMRE.match(v) and '.' in v:
+        return float(v)
+    return None
+
+
+def reference_layout(desc_pairs):
+    """which number of a row is what, read from the preamble keys as the README/data.rst describe them
+    (xNname / xNvalue = columnK | number, y1value = columnK, y1error… = columnK, y1errornormalization = number).
+    Same shape as parse_model_layout; None when the preamble is outside that documented syntax (the reader
+    then says nothing)."""
+    d = dict(desc_pairs)
+    if 'y1name' not in d or 'y1unit' not in d or 'in1particle' not in d:
+        return None
+    L = dict(observable=d['y1name'], in1charge=CHARGE.get(d['in1particle']), enorm=None, axes=[])
+
+    def colref(k):
+        m = COLRE.match(d[k])
+        return int(m.group(1)) - 1 if m else 'bad'
+    for k, _ in desc_pairs:
+        if not re.match(r'x\dname$', k):
+            continue
+        n = k[1]
+        if 'x%sunit' % n not in d or 'x%svalue' % n not in d:
+            return None
+        v = d['x%svalue' % n]
+        num = ref_number(v)
+        if num is not None:
+            L['axes'].append((d[k], 'G', num))
+        elif COLRE.match(v):
+            L['axes'].append((d[k], 'C', colref('x%svalue' % n)))
+        else:
+            return None
+    if 'y1value' not in d or colref('y1value') == 'bad':
+        return None
+    L['ycol'] = colref('y1value')
+    for f, _ in ECOLS:
+        L[f] = None
+    if 'y1error' in d:
+        L['etotal'] = colref('y1error')         # a total error is given: nothing else is combined
+    else:
+        for f, k in ECOLS[1:]:
+            if k in d:
+                L[f] = colref(k)
+        # an asymmetric error is a pair: the minus side means something only next to a plus side
+        for p, m in (('estatP', 'estatM'), ('esystP', 'esystM')):
+            if L[p] is None:
+                L[m] = None
+            elif L[m] is None:
+                return None
+        if 'y1errornormalization' in d:
+            L['enorm'] = ref_number(d['y1errornormalization'])
+            if L['enorm'] is None:
+                return None
+    if any(L[f] == 'bad' for f, _ in ECOLS):
+        return None
+    return L
+
+
+def norm_lay(L):
+    """layout in a form that can be compared across sources (model / reference reader / generator)"""
+    return (L['observable'], L['in1charge'], L['ycol']) + tuple(L[f] for f, _ in ECOLS) + (
+        None if (L['etotal'] is not None or L['enorm'] is None) else f2hex(L['enorm']),
+        tuple(sorted((a, k, f2hex(canon_float(v)) if k == 'G' else v) for a, k, v in L['axes'])))
+
+
+def needed_cols(L):
+    return [a[2] for a in L['axes'] if a[1] == 'C'] + [L['ycol']] + [L[f] for f, _ in ECOLS if L[f] is not None]
+
+
+def is_short(L, rows):
+    """some referenced column lies outside some row (the loader then has nothing to read: it must reject)"""
+    need = needed_cols(L)
+    return any(not (-len(r) <= i < len(r)) for r in rows for i in need)
+
+
+def expect_point(L, row):
+    """{field: number | None} that the point made of this row carries under layout L (raw, as written)"""
+    def col(i):
+        return row[i] if -len(row) <= i < len(row) else None
+    e = {}
+    for aname, kind, v in L['axes']:
+        e[aname] = v if kind == 'G' else col(v)
+    e['val'] = col(L['ycol'])
+    return e, col
+
+
+def err_args(L, col, val):
+    g_ = lambda k: (None if L[k] is None else col(L[k]))
+    return [val, g_('etotal'), g_('estat'), g_('estatP'), g_('estatM'), g_('esyst'), g_('esystP'), g_('esystM'), L['enorm']]
+
+
+def error_oracle(args):
+    """the property in Python: a total error is taken as written; otherwise variances add: statistical,
+    systematic (larger side if asymmetric), normalisation (fraction of the value).  The plus / minus totals
+    take the respective side, errstat / errsyst / errnorm are the parts (code comment in update_from_grid).
+    The variances are summed exactly (Fraction); only the final conversion and square root round (< 2 ulp).
+    None when a written number is not finite (the oracle then says nothing)."""
+    val, tot, st, sp, sm, sy, yp, ym, nm = args
+    if any(x is not None and not (isinstance(x, (int, float)) and math.isfinite(x)) for x in args):
+        return None
+    if tot is not None:
+        return dict(err=tot, errplus=tot, errminus=tot, errstat=None, errsyst=None, errnorm=None)
+    z = lambda x: Fraction(0) if x is None else Fraction(x) ** 2
+    vn = Fraction(0) if nm is None else (Fraction(nm) * Fraction(val)) ** 2
+    try:
+        rt = lambda v: math.sqrt(float(v))
+        return dict(err=rt(z(st) + max(z(sp), z(sm)) + z(sy) + max(z(yp), z(ym)) + vn),
+                    errplus=rt(z(st) + z(sy) + z(sp) + z(yp) + vn),
+                    errminus=rt(z(st) + z(sy) + z(sm) + z(ym) + vn),
+                    errstat=rt(z(st) + max(z(sp), z(sm))),
+                    errsyst=rt(z(sy) + max(z(yp), z(ym)) + vn),
+                    errnorm=rt(vn))
+    except OverflowError:
+        return None
+
+
+def harmonic_flips(n):
+    """cos(n phi) (n >= 0) / sin(|n| phi) (n < 0) under phi -> pi - phi: True = changes sign, None = not a harmonic
+    index this check speaks about (|n| > 3 or not an integer)"""
+    if n is None or isinstance(n, bool) or not isinstance(n, (int, float)) or n != int(n) or abs(n) > 3:
+        return None
+    n = int(n)
+    return (n > 0 and n % 2 == 1) or (n < 0 and n % 2 == 0)
+
+
+def conventions_expectation(raw, phiunit, frame, yunit):
+    """what to_conventions must make of a raw point (documented conventions: angles in rad, BMK frame:
+    phi -> pi - phi_Trento, harmonics change sign accordingly, cross sections in nb).
+    raw: {field: value}; returns {field: (expected, relative tolerance, scale)}, only for what is decided"""
+    e = {}
+    pi = math.pi
+    trento = frame == 'Trento'
+    if frame not in ('Trento', 'BMK', None):
+        return e
+    phi = raw.get('phi')
+    if phi is not None and (phiunit in DEG_UNITS or phiunit in RAD_UNITS):
+        if phiunit in DEG_UNITS:
+            x = float(Fraction(phi) * Fraction(pi) / 180)       # the double nearest to phi * (double pi) / 180
+            tol = 1e-15
+        else:
+            x, tol = phi, 0.0                                   # a phi in rad is that number
+        if trento:
+            x, tol = pi - x, 1e-15
+        e['phi'] = (x, tol, max(pi, abs(x)))
+    val = raw.get('val')
+    if val is not None and (yunit == PB_UNIT or yunit in NB_UNITS):
+        sgn = 1
+        decided = True
+        if trento:
+            if phi is None and raw.get('FTn') is not None:
+                fl = harmonic_flips(raw['FTn'])
+                decided = fl is not None
+                sgn = -1 if fl else 1
+            if raw.get('varphi') is not None:
+                decided = False
+            elif raw.get('varFTn') is not None:
+                if raw['varFTn'] in (1, -1):
+                    sgn = -sgn
+                else:
+                    decided = False
+        if decided:
+            if yunit == PB_UNIT:
+                e['val'] = (float(Fraction(sgn * val) / 1000), 4e-16, abs(val) / 1000)
+            else:
+                e['val'] = (sgn * val, 0.0, abs(val))
+        e['origval'] = (val, 0.0, abs(val))
+        for k in ERRFIELDS:
+            if raw.get(k) is not None:
+                x = raw[k]
+                e[k] = (float(Fraction(x) / 1000), 4e-16, abs(x) / 1000) if yunit == PB_UNIT else (x, 0.0, abs(x))
+                e['orig' + k] = (x, 0.0, abs(x))
+    for k in ('xB', 'Q2', 't', 'tm', 'W', 'xi', 's', 'FTn'):
+        if raw.get(k) is not None:
+            e[k] = (raw[k], 0.0, 1.0)
+    return e
+
+
+def conventions_bad(pt, exp):
+    """first field of the converted point that is not what the conventions say; None if all fine"""
+    for k, (x, tol, scale) in exp.items():
+        got = pt.get(k)
+        if isinstance(got, bool) or not isinstance(got, (int, float)):
+            return k, got, x
+        if tol == 0.0:
+            if not same_num(got, x):
+                return k, got, x
+        elif not (abs(got - x) <= tol * scale):
+            return k, got, x
+    return None
+
+
+RAW_FIELDS = ('phi', 'val', 'FTn', 'varFTn', 'varphi', 'xB', 'Q2', 't', 'tm', 'W', 'xi', 's') + ERRFIELDS
+
+
+class Model:
+    """the Lean model driver; when it cannot be run the check goes on with the ground truth alone"""
+
+    def __init__(self, rep):
+        self.rep, self.up = rep, True
+
+    def run(self, lines, what):
+        if not lines:
+            return []
+        if not self.up:
+            return None
+        try:
+            return common.run_driver(lines)
+        except (common.ModelUnavailable, common.Timeout, RuntimeError) as e:
+            self.up = False
+            self.rep.violation('model-unavailable',
+                               'the Lean model driver (drv_C09: Model/DataFile.lean, Gen/GridPtF.lean) could not be run: %s; '
+                               'the correspondence between the theorems of Props/C09.lean and the running loader is not '
+                               'established in this run (the checks against the generator\'s ground truth and the '
+                               'independent reference reader were still evaluated)' % (str(e)[:600],),
+                               dict(correspondence='drv_C09 ' + what, detail=str(e)[:3000], exception=type(e).__name__),
+                               found_input=False)
+            self.rep.notes.append('model driver unavailable (%s): model comparisons skipped, ground-truth checks evaluated' % type(e).__name__)
+            return None
+
+
 def run(rep):
     import gepard as g
     from gepard.constants import Mp, Mp2
     rng = rep.rng
     ok, why = common.lean_side(rep, 'C09')
     quick = rep.tier == 'quick'
-    files = [(n, t, None) for n, t in bundled_files()]
+    files = [dict(name=n, text=t, stream='bundled', gt=None) for n, t in bundled_files()]
     rep.coverage['bundled_files'] = len(files)
     ngen = 250 if quick else 5000
     nmal = 80 if quick else 1500
     for i in range(ngen):
-        text, meta, grid_text, roles, globs = gen_file(rng, rep)
-        files.append(('gen%d' % i, text, meta))
+        text, meta, truth = gen_file(rng, rep)
+        files.append(dict(name='gen%d' % i, text=text, stream='generated', gt=truth))
         rep.hist('gen.errlayout', meta['errlayout'])
         rep.hist('gen.nl', meta['nl'])
         rep.hist('gen.process', meta['process'])
+        rep.hist('gen.phiunit', meta['phiunit'])
+        rep.hist('gen.frame', truth['frame'])
+        rep.hist('gen.yunit', truth['yunit'])
     for i in range(nmal):
         text = mutate(rng, gen_file(rng, rep)[0])
-        files.append(('mal%d' % i, text, dict(malformed=True)))
+        files.append(dict(name='mal%d' % i, text=text, stream='malformed', gt=None))
 
+    model = Model(rep)
     lines = []
-    for name, text, meta in files:
-        lines.append('c09.parse ' + hx(text))
-        lines.append('c09.layout ' + hx(text))
-    out = common.run_driver(lines)
+    for F in files:
+        lines.append('c09.parse ' + hx(F['text']))
+        lines.append('c09.layout ' + hx(F['text']))
+    out = model.run(lines, 'c09.parse / c09.layout of %d files' % len(files))
 
-    point_lines, point_meta = [], []
-    npoints = 0
-    for fi, (name, text, meta) in enumerate(files):
-        malformed = bool(meta and meta.get('malformed'))
-        stream = 'bundled' if meta is None else ('malformed' if malformed else 'generated')
-        m_desc, m_rows = parse_model_parse(out[2 * fi])
-        m_lay = parse_model_layout(out[2 * fi + 1])
+    registry = private_registry(g)
+    deferred = []          # model lines of the point stage: (line, meta)
+    nonascii = []
+    npoints = ntruth = nconv = nreg = 0
+    for fi, F in enumerate(files):
+        name, text, stream, gt = F['name'], F['text'], F['stream'], F['gt']
+        malformed = stream == 'malformed'
+        vkey = stream if gt is not None or malformed else 'bundled:' + name
+        rtext = text if stream != 'bundled' else None
+        if out is not None:
+            m_desc, m_rows = parse_model_parse(out[2 * fi])
+            m_lay = parse_model_layout(out[2 * fi + 1])
+        else:
+            m_desc = m_rows = m_lay = None
+        # ---- ground truth of the text: preamble pairs and grid ----
+        t_desc = t_rows = None
+        if gt is not None:
+            t_desc = [tuple(p) for p in gt['pre']]
+            t_rows = [[canon_float(float(t)) for t in r] for r in gt['grid_text']]
+            if reference_desc(text) != t_desc or reference_rows(text) != t_rows:
+                rep.violation('harness/reference-reader', 'the reference reader of the harness and the generator disagree on %s '
+                              '(a fault of the harness, not of gepard)' % name, dict(file=name, text=text), found_input=False)
+        elif not malformed:
+            t_desc = reference_desc(text)
+            if ascii_outside_comments(text):
+                t_rows = reference_rows(text)
+            else:
+                rep.hist('bundled.non-ascii-outside-comments', name)
+                # a typographic minus (U+2212 and its relatives, as pasted from a PDF) in front of a number IS a minus
+                # sign to every reader of the file: the numbers written are those of the text with it spelled '-'
+                norm = text
+                for ch in '\u2212\u2012\u2013\u2014\ufe63\uff0d':
+                    norm = norm.replace(ch, '-')
+                if ascii_outside_comments(norm):
+                    t_rows = reference_rows(norm)
+                    rep.hist('bundled.typographic-minus-normalised', name)
+                odd = sorted(set(tok for line in text.splitlines() for tok in line.split('#')[0].split() if not tok.isascii()))
+                nonascii.append('%s (%s)' % (name, ', '.join(ascii(tok) for tok in odd[:6])))
         # ---- stage 1: DataSet.parse ----
         try:
             desc, data = g.DataSet.parse(None, text)
             impl = (list(desc.items()), [[canon_float(x) for x in r] for r in data])
         except Exception as e:
             impl = 'EXC:' + type(e).__name__
-        rep.case(stream + '.parse', name, sample=dict(file=name, rows=len(m_rows), keys=len(m_desc)) if fi % 40 == 0 else None)
-        model = (m_desc, m_rows)
-        if impl != model:
-            ref = reference_rows(text)
-            if isinstance(impl, str):
-                what, found = 'parse raises %s' % impl, (not malformed)
-                key = 'parse/' + impl
-            elif impl[1] != model[1]:
-                # first differing row
-                k = next((i for i, (a, b) in enumerate(zip(impl[1], model[1])) if a != b), min(len(impl[1]), len(model[1])))
-                wrong_vs_ref = (not malformed) and impl[1] != ref
-                what = 'grid of %s: gepard row %d = %s, literal numbers = %s' % (
-                    name, k, impl[1][k] if k < len(impl[1]) else None, ref[k] if k < len(ref) else None)
-                found = wrong_vs_ref
-                key = 'parse/grid/' + ('bundled:' + name if meta is None else stream)
+        rep.case(stream + '.parse', name, sample=dict(file=name, rows=len(impl[1]) if not isinstance(impl, str) else None,
+                                                      keys=len(impl[0]) if not isinstance(impl, str) else None) if fi % 40 == 0 else None)
+        if isinstance(impl, str):
+            if not malformed or out is not None:
+                rep.violation('parse/' + impl, 'parse raises %s on %s' % (impl, name),
+                              dict(file=name, text=rtext, impl=impl), found_input=not malformed)
+            continue
+        code_desc, code_rows = impl
+        if t_rows is not None and code_rows != t_rows:
+            k = next((i for i, (a, b) in enumerate(zip(code_rows, t_rows)) if a != b), min(len(code_rows), len(t_rows)))
+            rep.violation('parse/grid/' + vkey, 'grid of %s: gepard row %d = %s, literal numbers = %s (%d rows read, %d written)' % (
+                name, k, code_rows[k] if k < len(code_rows) else None, t_rows[k] if k < len(t_rows) else None,
+                len(code_rows), len(t_rows)),
+                dict(file=name, text=rtext, impl=str(impl)[:2000], truth=str(t_rows)[:2000]), found_input=True)
+            continue
+        if t_desc is not None and code_desc != t_desc:
+            dk = [p for p in t_desc if p not in code_desc][:3]
+            rep.violation('parse/preamble/' + stream, 'preamble of %s: gepard has %s, the file says %s' % (
+                name, [p for p in code_desc if p not in t_desc][:3] or '(other order / missing)', dk),
+                dict(file=name, text=rtext, impl=str(code_desc)[:2000], truth=str(t_desc)[:2000]), found_input=True)
+            continue
+        if out is not None and (code_desc, code_rows) != (m_desc, m_rows):
+            # the code agrees with the ground truth (or there is none: malformed / non-ASCII): the model differs
+            if code_rows != m_rows:
+                k = next((i for i, (a, b) in enumerate(zip(code_rows, m_rows)) if a != b), min(len(code_rows), len(m_rows)))
+                what = 'grid of %s: gepard row %d = %s, model %s%s' % (
+                    name, k, code_rows[k] if k < len(code_rows) else None, m_rows[k] if k < len(m_rows) else None,
+                    '' if t_rows is None else ' (gepard agrees with the literal numbers)')
+                key = 'parse/grid/' + vkey
             else:
-                what, found = 'preamble of %s differs: %s vs model %s' % (name, impl[0][:3], model[0][:3]), False
+                what = 'preamble of %s differs: %s vs model %s' % (name, code_desc[:3], m_desc[:3])
                 key = 'parse/preamble/' + stream
-            rep.violation(key, what, dict(file=name, text=text if meta is not None else None, impl=str(impl)[:2000],
-                                          model=str(model)[:2000]), found_input=found)
+            rep.violation(key, what, dict(file=name, text=rtext, impl=str(impl)[:2000], model=str((m_desc, m_rows))[:2000]),
+                          found_input=False)
             continue
         # ---- stage 2: DataSet(datafile=text) raw points ----
         try:
             ds = g.DataSet(datafile=text)
-            implpts = ds
+            exc = None
         except Exception as e:
-            implpts = type(e).__name__
-        if isinstance(m_lay, str) and m_lay.startswith('row:'):
-            # raised inside update_from_grid: only happens when the grid has rows
-            if not m_rows and not isinstance(implpts, str) and len(implpts) == 0:
-                rep.hist('layout.errors', 'row-level error masked by an empty grid')
-                continue
-            m_lay = m_lay[4:]
-        if isinstance(m_lay, str) or isinstance(implpts, str):
-            if isinstance(m_lay, str) and isinstance(implpts, str):
-                rep.hist('layout.errors', implpts)
-                continue           # both reject (exception class compared loosely)
-            # a row index outside the grid, etc., only show up per row: let stage 2b decide
-            if isinstance(implpts, str) and not isinstance(m_lay, str):
-                # the model's layout is fine: errors may still come from row indexing / kinematics
-                idx_needed = [a[2] for a in m_lay['axes'] if a[1] == 'C'] + [m_lay['ycol']] + [
-                    m_lay[k] for k in ('etotal', 'estat', 'estatP', 'estatM', 'esyst', 'esystP', 'esystM')
-                    if m_lay[k] is not None]
-                short = any(not (-len(r) <= i < len(r)) for r in m_rows for i in idx_needed)
-                if short or malformed or implpts in ('KinematicsError', 'AssertionError', 'TypeError', 'KeyError'):
-                    rep.hist('layout.errors', implpts + '(row-level)')
+            ds, exc = None, type(e).__name__
+        # ground-truth layout: the generator's, or the reference reader's (on the preamble just verified; for a
+        # malformed file on the preamble as gepard itself parsed it: the reader then judges the column lookup only)
+        if gt is not None:
+            t_lay = gt['layout']
+            r_lay = reference_layout(t_desc)
+            if r_lay is None or norm_lay(r_lay) != norm_lay(t_lay):
+                rep.violation('harness/reference-reader', 'the reference layout reader of the harness and the generator disagree on %s '
+                              '(a fault of the harness, not of gepard)' % name, dict(file=name, text=text), found_input=False)
+        else:
+            t_lay = reference_layout(code_desc)
+            if t_lay is None and not malformed:
+                rep.hist('bundled.outside-reference-syntax', name)
+        rows_T = code_rows           # = t_rows where there is a ground truth of the grid (verified above)
+        ml = m_lay
+        if not malformed and t_lay is not None:
+            rep.case(stream + '.load', name)
+            if exc is not None:
+                if is_short(t_lay, rows_T):
+                    rep.hist('layout.errors', exc + '(row-level)')
                     continue
-            rep.violation('load/%s/%s' % (stream, implpts if isinstance(implpts, str) else 'accepted'),
-                          'DataSet(datafile=%s): gepard %s, model layout %s' % (
-                              name, implpts if isinstance(implpts, str) else 'loads', m_lay if isinstance(m_lay, str) else 'ok'),
-                          dict(file=name, text=text if meta is not None else None), found_input=not malformed and isinstance(implpts, str))
-            continue
-        L = m_lay
-        if len(ds) != len(m_rows):
-            rep.violation('load/rowcount/' + stream, '%s: %d points for %d grid rows' % (name, len(ds), len(m_rows)),
-                          dict(file=name, text=text if meta is not None else None))
+                rep.violation('load/%s/%s' % (stream, exc),
+                              'DataSet(datafile=%s): gepard raises %s on a well-formed file (%s)' % (
+                                  name, exc, 'model layout ' + (ml if isinstance(ml, str) else 'ok') if out is not None else 'model not run'),
+                              dict(file=name, text=rtext), found_input=True)
+                continue
+            if isinstance(ml, str):
+                rep.violation('load/%s/accepted' % stream, 'DataSet(datafile=%s): gepard loads, model layout %s (the file is well-formed: '
+                              'the model is at fault)' % (name, ml), dict(file=name, text=rtext), found_input=False)
+                ml = None
+        else:
+            # no ground truth about acceptance (malformed file, or a preamble the reference reader does not speak about)
+            if out is None:
+                if exc is not None:
+                    rep.hist('layout.errors', exc + '(model not run)')
+                    continue
+            else:
+                if isinstance(ml, str) and ml.startswith('row:'):
+                    # raised inside update_from_grid: only happens when the grid has rows
+                    if not m_rows and exc is None and len(ds) == 0:
+                        rep.hist('layout.errors', 'row-level error masked by an empty grid')
+                        continue
+                    ml = ml[4:]
+                if isinstance(ml, str) or exc is not None:
+                    if isinstance(ml, str) and exc is not None:
+                        rep.hist('layout.errors', exc)
+                        continue           # both reject (exception class compared loosely)
+                    if exc is not None:
+                        # the model's layout is fine: a referenced column outside a row shows up per row only
+                        if malformed or is_short(ml, m_rows):
+                            rep.hist('layout.errors', exc + '(row-level)')
+                            continue
+                        rep.violation('load/%s/%s' % (stream, exc), 'DataSet(datafile=%s): gepard %s, model layout ok' % (name, exc),
+                                      dict(file=name, text=rtext), found_input=True)
+                        continue
+                    rep.violation('load/%s/accepted' % stream, 'DataSet(datafile=%s): gepard loads, model layout %s' % (name, ml),
+                                  dict(file=name, text=rtext), found_input=False)
+                    continue
+            if t_lay is None and ml is None:
+                continue
+        if t_lay is not None and out is not None and ml is not None and norm_lay(ml) != norm_lay(t_lay):
+            if not malformed:
+                rep.violation('model/layout/' + stream, '%s: the model reads the layout %s, the %s says %s' % (
+                    name, norm_lay(ml), 'generator' if gt is not None else 'reference reader', norm_lay(t_lay)),
+                    dict(file=name, text=rtext), found_input=False)
+                ml = None           # reported once; the points are judged by the ground truth
+            else:
+                t_lay = None        # the reference reader does not follow the loader on this damaged preamble: model only
+        # one point per grid row
+        if len(ds) != len(code_rows):
+            rep.violation('load/rowcount/' + stream, '%s: %d points for %d grid rows' % (name, len(ds), len(code_rows)),
+                          dict(file=name, text=rtext), found_input=True)
             continue
         # dataset-level
-        if L['in1charge'] is not None and getattr(ds, 'in1charge', None) != L['in1charge']:
-            rep.violation('load/in1charge', '%s: in1charge %r, beam %r' % (name, getattr(ds, 'in1charge', None), dict(m_desc).get('in1particle')),
-                          dict(file=name))
-        d = dict(m_desc)
+        d = dict(code_desc)
+        want_charge = CHARGE.get(d.get('in1particle'))
+        if want_charge is not None and getattr(ds, 'in1charge', None) != want_charge:
+            rep.violation('load/in1charge', '%s: in1charge %r, beam %r' % (name, getattr(ds, 'in1charge', None), d.get('in1particle')),
+                          dict(file=name, text=rtext), found_input=True)
+        elif ml is not None and ml['in1charge'] is not None and getattr(ds, 'in1charge', None) != ml['in1charge']:
+            rep.violation('load/in1charge', '%s: in1charge %r, model %r for beam %r' % (
+                name, getattr(ds, 'in1charge', None), ml['in1charge'], d.get('in1particle')), dict(file=name, text=rtext), found_input=False)
         # numeric conversion of preamble keys
-        for k, v in m_desc:
+        for k, v in code_desc:
             a = getattr(ds, k, None)
             if NUMRE.match(v) and ('.' in v or re.match(r'[-+]?\d+$', v)):
-                if not isinstance(a, (int, float)) or a != float(v) or isinstance(a, float) != ('.' in v):
-                    rep.violation('load/preamble-number', '%s: key %s = %r loaded as %r' % (name, k, v, a), dict(file=name, key=k))
-            elif k not in ('in1charge',) and not isinstance(a, (int, float)) and a != v and k not in ds.__dict__.get('xnames', []) :
-                pass
+                if isinstance(a, bool) or not isinstance(a, (int, float)) or a != float(v) or isinstance(a, float) != ('.' in v):
+                    rep.violation('load/preamble-number', '%s: key %s = %r loaded as %r' % (name, k, v, a),
+                                  dict(file=name, key=k, text=rtext), found_input=True)
         if d.get('process') in ('ep2epgamma', 'en2engamma') and NUMRE.match(d.get('in1energy', '')):
             E1 = float(d['in1energy'])
+            s_got = getattr(ds, 's', None)
+            s_line = s_want = None
+            s_tol = 4e-16
             if d.get('exptype') == 'fixed target':
-                point_lines.append('c09.sfixed %s %s %s' % (f2hex(Mp), f2hex(Mp2), f2hex(E1)))
-                point_meta.append(('s', name, getattr(ds, 's', None)))
+                s_line = 'c09.sfixed %s %s %s' % (f2hex(Mp), f2hex(Mp2), f2hex(E1))
+                # exact value of 2 Mp E + Mp^2 on the doubles, rounded once; the code rounds twice (positive terms): 4e-16
+                s_want = float(2 * Fraction(Mp) * Fraction(E1) + Fraction(Mp2))
             elif d.get('exptype') == 'collider' and NUMRE.match(d.get('in2energy', '')):
-                point_lines.append('c09.scollider %s %s %s' % (f2hex(Mp2), f2hex(E1), f2hex(float(d['in2energy']))))
-                point_meta.append(('s', name, getattr(ds, 's', None)))
+                E2 = float(d['in2energy'])
+                s_line = 'c09.scollider %s %s %s' % (f2hex(Mp2), f2hex(E1), f2hex(E2))
+                if E2 >= 2 and E1 >= 0:
+                    # two-beam invariant with 50 digits; the code rounds six times, no cancellation for E2 >= 2 GeV: 8e-16
+                    import decimal
+                    with decimal.localcontext() as ctx:
+                        ctx.prec = 50
+                        D = decimal.Decimal
+                        s_want = float(2 * D(E1) * (D(E2) + (D(E2) * D(E2) - D(Mp2)).sqrt()) + D(Mp2))
+                    s_tol = 8e-16
+            if s_line is not None:
+                s_ok = None
+                if s_want is not None:
+                    s_ok = isinstance(s_got, (int, float)) and not isinstance(s_got, bool) and not differs(float(s_got), s_want, s_tol)
+                    if not s_ok:
+                        rep.violation('load/s', '%s: s=%r, beam energies give %r' % (name, s_got, s_want),
+                                      dict(file=name, text=rtext), found_input=True)
+                deferred.append((s_line if out is not None else None, ('s', name, s_got, s_ok, rtext)))
         # per point
-        step = 1 if (not quick or meta is not None or len(ds) < 40) else max(1, len(ds) // 40)
+        step = 1 if (not quick or stream != 'bundled' or len(ds) < 40) else max(1, len(ds) // 40)
+        file_ok = True
         for ri in range(0, len(ds), step):
-            pt, row = ds[ri], m_rows[ri]
+            pt = ds[ri]
             npoints += 1
-            bad = []
-
-            def col(i):
-                return row[i] if -len(row) <= i < len(row) else None
-            for aname, kind, v in L['axes']:
-                exp = canon_float(v) if kind == 'G' else col(v)
-                got = pt.get(aname)
-                if exp is None or got is None or canon_float(got) != exp or f2hex(canon_float(got)) != f2hex(exp):
-                    bad.append((aname, got, exp))
-            if canon_float(pt.val) != col(L['ycol']):
-                bad.append(('val', pt.val, col(L['ycol'])))
+            expT = colT = expM = colM = None
+            if t_lay is not None:
+                expT, colT = expect_point(t_lay, rows_T[ri])
+                ntruth += 1
+            if ml is not None:
+                expM, colM = expect_point(ml, m_rows[ri])
+            bad = None
+            for field in list(expT or {}) + [f for f in (expM or {}) if f not in (expT or {})]:
+                got = pt.get(field)
+                if expT is not None and field in expT:
+                    e = expT[field]
+                    if not same_num(got, e) or (isinstance(e, int) != isinstance(got, int)):
+                        bad = (field, got, e, True)
+                        break
+                if expM is not None and field in expM and (expT is None or field in expT):
+                    if not same_num(got, expM[field]):
+                        bad = (field, got, expM[field], False)
+                        break
             if bad:
-                rep.violation('load/point/%s/%s' % (stream if meta is not None else 'bundled:' + name, bad[0][0]),
-                              '%s row %d: loaded %s=%r, file says %r' % (name, ri, bad[0][0], bad[0][1], bad[0][2]),
-                              dict(file=name, row=ri, bad=str(bad), text=text if meta is not None else None))
+                file_ok = False
+                rep.violation('load/point/%s/%s' % (vkey, bad[0]),
+                              '%s row %d: loaded %s=%r, %s %r' % (name, ri, bad[0], bad[1],
+                                                                 'file says' if bad[3] else 'model says (no independent reference for this file)' if expT is None
+                                                                 else 'model says (gepard agrees with the file)', bad[2]),
+                              dict(file=name, row=ri, bad=str(bad[:3]), text=rtext), found_input=bad[3])
                 continue
-            g_ = lambda k: (None if L[k] is None else col(L[k]))
-            args = [pt.val, g_('etotal'), g_('estat'), g_('estatP'), g_('estatM'), g_('esyst'), g_('esystP'),
-                    g_('esystM'), L['enorm']]
-            point_lines.append('c09.combine ' + ' '.join('N' if a is None else f2hex(a) for a in args))
-            point_meta.append(('err', name, ri, [pt.get(k) for k in ('err', 'errplus', 'errminus', 'errstat', 'errsyst', 'errnorm')], args))
+            argsT = err_args(t_lay, colT, expT['val']) if t_lay is not None else None
+            argsM = err_args(ml, colM, pt.val) if ml is not None else None
+            got6 = [pt.get(k) for k in ERRFIELDS]
+            line = None if (argsM is None or out is None) else 'c09.combine ' + ' '.join('N' if a is None else f2hex(a) for a in argsM)
+            deferred.append((line, ('err', name, ri, got6, argsT, argsM, rtext)))
             # completed kinematics (C13's model): xi, tm, trio relation
             if 'xB' in pt and (pt.get('xi') is None or abs(pt.xi - pt.xB / (2 - pt.xB)) > 1e-15):
-                rep.violation('load/xi', '%s row %d: xi=%r for xB=%r' % (name, ri, pt.get('xi'), pt.xB), dict(file=name, row=ri))
+                rep.violation('load/xi', '%s row %d: xi=%r for xB=%r' % (name, ri, pt.get('xi'), pt.xB), dict(file=name, row=ri, text=rtext))
             if 't' in pt and pt.get('tm') != -pt.t:
-                rep.violation('load/tm', '%s row %d: tm=%r for t=%r' % (name, ri, pt.get('tm'), pt.t), dict(file=name, row=ri))
+                rep.violation('load/tm', '%s row %d: tm=%r for t=%r' % (name, ri, pt.get('tm'), pt.t), dict(file=name, row=ri, text=rtext))
             if all(k in pt for k in ('xB', 'W', 'Q2')) and abs(pt.xB - pt.Q2 / (pt.W ** 2 + pt.Q2 - Mp2)) > 1e-12 * max(1, abs(pt.xB)):
-                rep.violation('load/trio', '%s row %d: xB, W, Q2 inconsistent' % (name, ri), dict(file=name, row=ri))
-    rep.coverage['points_compared'] = npoints
-    pout = common.run_driver(point_lines) if point_lines else []
-    for line, m, o in zip(point_lines, point_meta, pout):
-        if m[0] == 's':
-            exp = hex2f(o)
-            rep.case('s', (m[1],), sample=None)
-            if m[2] is None or abs(m[2] - exp) > 4e-16 * abs(exp):
-                rep.violation('load/s', '%s: s=%r, beam energies give %r' % (m[1], m[2], exp), dict(file=m[1]))
+                rep.violation('load/trio', '%s row %d: xB, W, Q2 inconsistent' % (name, ri), dict(file=name, row=ri, text=rtext))
+        if not file_ok or t_lay is None or malformed:
             continue
-        _, name, ri, got, args = m
-        exp = [None if x == 'N' else hex2f(x) for x in o.split()]
-        rep.case('errors', (name, ri), sample=dict(file=name, row=ri, err=got[0]) if ri == 0 and name.startswith('gen1') else None)
-        for k, a, b in zip(('err', 'errplus', 'errminus', 'errstat', 'errsyst', 'errnorm'), got, exp):
-            if (a is None) != (b is None) or (a is not None and a != b and abs(a - b) > 4e-16 * max(abs(a), abs(b))):
-                # property oracle in Python
-                v = dict(zip(('val', 'tot', 'st', 'sp', 'sm', 'sy', 'yp', 'ym', 'nm'), args))
-                if v['tot'] is not None:
-                    want = v['tot']
-                else:
-                    z = lambda x: 0.0 if x is None else x
-                    var = z(v['st']) ** 2 + max(z(v['sp']) ** 2, z(v['sm']) ** 2) + z(v['sy']) ** 2 + \
-                        max(z(v['yp']) ** 2, z(v['ym']) ** 2) + (z(v['nm']) * v['val']) ** 2
-                    want = math.sqrt(var)
-                found = k == 'err' and (a is None or abs(a - want) > 1e-14 * max(abs(want), 1e-300))
-                rep.violation('load/errors/' + k, '%s row %d: %s=%r, quadrature sum of the parts = %r (model %r)' % (
-                    name, ri, k, a, want if k == 'err' else b, b), dict(file=name, row=ri, args=str(args)), found_input=found)
-                break
+        # ---- stage 3 (ground truth only; the Lean model does not cover units and frames): conventions ----
+        d_units = dict((d[k], d.get(k[:2] + 'unit')) for k in d if re.match(r'x\dname$', k))
+        phiunit, frame, yunit = d_units.get('phi'), d.get('frame'), d.get('y1unit')
+        if gt is not None:
+            # generated file: to_conventions on the freshly loaded points
+            for ri in range(len(ds)):
+                pt = ds[ri]
+                raw = dict((k, pt.get(k)) for k in RAW_FIELDS)
+                exp = conventions_expectation(raw, phiunit, frame, yunit)
+                nconv += 1
+                rep.case('conventions', (name, ri), sample=dict(file=name, row=ri, phiunit=phiunit, frame=frame, yunit=yunit,
+                                                                 phi=raw.get('phi')) if ri == 0 and phiunit in RAD_UNITS else None)
+                try:
+                    pt.to_conventions()
+                except Exception as e:
+                    rep.violation('conventions/exception/' + type(e).__name__, '%s row %d: to_conventions raises %s: %s' % (name, ri, type(e).__name__, e),
+                                  dict(file=name, row=ri, text=rtext), found_input=True)
+                    break
+                b = conventions_bad(pt, exp)
+                if b:
+                    rep.violation('conventions/%s/%s' % (stream, b[0]),
+                                  '%s row %d (phi unit %r, frame %r, y unit %r): after to_conventions %s=%r, the conventions give %r for the written %r' % (
+                                      name, ri, phiunit, frame, yunit, b[0], b[1], b[2], raw.get(b[0][4:] if b[0].startswith('orig') else b[0])),
+                                  dict(file=name, row=ri, text=rtext, raw=str(raw)), found_input=True)
+                    break
+        elif registry is not None:
+            # bundled file: gepard.dset[id] is this file, loaded and brought to the conventions
+            try:
+                reg = registry.get(int(d['id'])) if INTRE.match(d.get('id', '')) else None
+            except Exception:
+                reg = None
+            if 'id' not in d or not INTRE.match(d['id']):
+                continue
+            if reg is None or len(reg) != len(ds):
+                rep.violation('registry/' + name, 'gepard.dset[%s] %s, the file %s has %d rows' % (
+                    d['id'], 'is missing' if reg is None else 'has %d points' % len(reg), name, len(ds)), dict(file=name), found_input=True)
+                continue
+            for ri in range(0, len(ds), step):
+                pt, rp = ds[ri], reg[ri]
+                raw = dict((k, pt.get(k)) for k in RAW_FIELDS)
+                exp = conventions_expectation(raw, phiunit, frame, yunit)
+                nreg += 1
+                rep.case('registry', (name, ri), sample=dict(file=name, id=d['id'], row=ri) if ri == 0 else None)
+                b = conventions_bad(rp, exp)
+                if b:
+                    rep.violation('registry/%s/%s' % (name, b[0]),
+                                  'gepard.dset[%s][%d] (%s; phi unit %r, frame %r, y unit %r): %s=%r, the file and the conventions give %r' % (
+                                      d['id'], ri, name, phiunit, frame, yunit, b[0], b[1], b[2]), dict(file=name, row=ri, raw=str(raw)), found_input=True)
+                    break
+    rep.coverage['points_compared'] = npoints
+    rep.coverage['points_compared_with_ground_truth'] = ntruth
+    rep.coverage['points_conventions'] = nconv
+    rep.coverage['points_registry'] = nreg
+    # ---- point stage: combined errors and s; the model side where the driver runs, the Python oracle always ----
+    mlines = [l for l, _ in deferred if l is not None]
+    pout = model.run(mlines, 'c09.combine / c09.sfixed / c09.scollider of %d points' % len(mlines)) if out is not None else None
+    it = iter(pout) if pout is not None else None
+    for line, m in deferred:
+        o = next(it) if (it is not None and line is not None) else None
+        if m[0] == 's':
+            _, name, s_got, s_ok, rtext = m
+            rep.case('s', (name,), sample=None)
+            if o is None:
+                continue
+            exp = hex2f(o)
+            if differs(float(s_got) if isinstance(s_got, (int, float)) and not isinstance(s_got, bool) else None, exp, 4e-16):
+                # s_ok False: the Python oracle has already reported it, with the file as failing input
+                if s_ok is not False:
+                    rep.violation('load/s', '%s: s=%r, model %r%s' % (name, s_got, exp, ' (within the accuracy of the Python oracle)' if s_ok else ''),
+                                  dict(file=name, text=rtext), found_input=False)
+            continue
+        _, name, ri, got6, argsT, argsM, rtext = m
+        expm = None if o is None else [None if x == 'N' else hex2f(x) for x in o.split()]
+        rep.case('errors', (name, ri), sample=dict(file=name, row=ri, err=got6[0]) if ri == 0 and name.startswith('gen1') else None)
+        judge_errors(rep, name, ri, got6, argsT, None if expm is None else (expm, argsM), rtext)
     if not ok and not rep.violations:
         rep.violation('lean', 'Lean side of C09 no longer checks: ' + why, dict(reason=why), found_input=False)
     rep.coverage['exhaustive_over_bundled_files'] = True
+    rep.notes += [
+        'ground truth independent of the Lean model: generated files — the generator\'s own record (literal of every cell, role of every '
+        'column, global values, preamble pairs); bundled files — the reference reader of the harness (reference_desc / reference_rows / '
+        'reference_layout); the generator and the reference reader are cross-checked on every generated file.  found_input=True only when '
+        'the real code disagrees with that ground truth; code = ground truth ≠ model is reported as a model fault (no failing input)',
+        'a loader exception on a well-formed generated file or a bundled file is a violation whatever its class; it is skipped only for '
+        'malformed files or when a referenced column lies outside a row',
+        'generated angle units: deg / degree / degrees / rad.  The Lean model does not model units, frames or to_conventions (the raw load '
+        'does not depend on them, so rad files go through the model comparison like the others); stage 3 (to_conventions on generated '
+        'points: deg→rad, rad kept as written, Trento→BMK phi → π − phi, harmonic sign, pb→nb, orig* copies, kinematics untouched) and the '
+        'registry stream (gepard.dset[id] = bundled file + conventions) rest on the ground truth alone — oracle streams that support the theorems',
+    ]
+    if nonascii:
+        rep.notes.append('bundled files with non-ASCII characters outside comments (outside the stated domain; their grid is compared with '
+                         'the model only, the reference reader is not applied): ' + '; '.join(nonascii) + '.  A number written with U+2212 '
+                         '(typographic minus) is read by gepard WITHOUT its sign; not reported as a violation, recorded here')
     rep.assumptions += ['float(token) is the correctly rounded value of the decimal the model returns (compared bit-for-bit)',
                         'ASCII files; line ends LF or CRLF; preamble numbers without "_" separators or inf/nan spellings',
-                        'Python re semantics for the number pattern = longest match of the model automaton']
+                        'Python re semantics for the number pattern = longest match of the model automaton',
+                        'tolerances: raw kinematics / value / column errors bit-for-bit; combined errors 4e-16 (model) and 1e-15 (Python '
+                        'oracle with exactly summed variances: the roundings of the code are < 6 ulp, of the oracle < 2 ulp); s 4e-16 (model; Python oracle: exact for fixed target 4e-16, 50-digit for collider 8e-16); '
+                        'to_conventions: rad & BMK bit-for-bit, deg→rad and π − phi 1e-15·max(π, |phi|) (two roundings), pb→nb 4e-16',
+                        'harmonic sign under Trento→BMK judged for |FTn| ≤ 3 only (cos nφ odd n, sin nφ even n change sign)']
     return rep.finish(level='proof', checker_cmd='lake build Props.C09; #print axioms; gepdriver c09.* vs DataSet.parse / DataSet(datafile=…)',
                       trusted=['Lean 4.33 kernel', 'Model/DataFile.lean, Scalar/GridPt.lean.in', 'harness/props/C09.py',
                                'CPython float()/Fraction correct rounding'])
+
+
+def private_registry(g):
+    """gepard.dset: {id: DataSet}"""
+    r = getattr(g, 'dset', None)
+    return r if isinstance(r, dict) else None
+
+
+def judge_errors(rep, name, ri, got6, argsT, model, rtext):
+    """combined uncertainties of one point.  argsT: the written numbers per the ground truth (None: no ground truth);
+    model: (values of the Lean model, its arguments) or None (not run / not yet run).
+    Ground truth first: the code differs from the Python oracle on the written numbers -> violation with the file as
+    failing input (err always; the other fields unless the model sides with the code).  Code = oracle ≠ model -> model fault.
+    Returns False if a violation was recorded."""
+    oracle = error_oracle(argsT) if argsT is not None else None
+    expm, argsM = model if model is not None else (None, None)
+    for i, k in enumerate(ERRFIELDS):
+        a = got6[i]
+        o_bad = oracle is not None and differs(a, oracle[k], ORACLE_TOL)
+        m_bad = expm is not None and differs(a, expm[i], 4e-16)
+        if o_bad:
+            found = True if k == 'err' else not (expm is not None and not m_bad)
+            rep.violation('load/errors/' + k, '%s row %d: %s=%r, the written parts combine to %r (model %s)' % (
+                name, ri, k, a, oracle[k], 'not run' if expm is None else repr(expm[i])),
+                dict(file=name, row=ri, args=str(argsT), text=rtext), found_input=found)
+            return False
+        if m_bad:
+            if oracle is None:
+                # no ground truth for this file: the property in Python on the model's reading of the columns
+                om = error_oracle(argsM)
+                want = None if om is None else om[k]
+                found = k == 'err' and om is not None and differs(a, want, ORACLE_TOL)
+                rep.violation('load/errors/' + k, '%s row %d: %s=%r, quadrature sum of the parts = %r (model %r)' % (
+                    name, ri, k, a, want, expm[i]), dict(file=name, row=ri, args=str(argsM), text=rtext), found_input=found)
+            else:
+                rep.violation('load/errors/' + k, '%s row %d: %s=%r is within %g of what the written parts combine to (%r) but not within 4e-16 '
+                              'of the model (%r)' % (name, ri, k, a, ORACLE_TOL, oracle[k], expm[i]),
+                              dict(file=name, row=ri, args=str(argsT), text=rtext), found_input=False)
+            return False
+    return True
 
 
 def replay(path):
